@@ -18,6 +18,12 @@
 // count) are kept out of the compiled batch: expected outcome compile_error, gomacro must reject them as well.
 // No model is ever consulted.  A sample of the integer / bool / string observations (what GOMACRO returned) is written
 // as Coq terms `mkCase idx FN SHAPE KIND a b obs` into cases_NNN.v (see coqCase).
+//
+// Failure keys: "<op> <kind> <shape> <placement> <operands>".  Function literals of a syntactic class with a recorded
+// genuine defect (see findingClass) are still evaluated and compared, but all their failures share the fixed class key
+// "finding:<name>" (one rep.Fail per class with the first failing case; counts in extra.class_failures).  Every single
+// failure is listed in <out>/failures_all.jsonl.  The corpus (built-in input + corpus/C01/*.go.txt) is replayed first.
+// Exit status 2 = harness defect (oracle program does not build/run, interpreter globals cannot be set up).
 package main
 
 import (
@@ -1024,7 +1030,13 @@ func (g *Gen) enumerate() {
 			}
 			for _, op := range shifts {
 				for _, kb := range ik {
-					for _, p := range places {
+					// quick tier: 4 of the 8 placements per (op, kind, count kind), alternating halves
+					ps := places
+					if !g.thorough {
+						g.rot++
+						ps = []string{places[g.rot%2], places[2+g.rot%2], places[4+g.rot%2], places[6+g.rot%2]}
+					}
+					for _, p := range ps {
 						g.add(op, false, k, kb, "VV", p, nil)
 					}
 				}
@@ -1529,7 +1541,7 @@ type corpusItem struct{ key, decl, call, want string }
 // corpus: the built-in regression input plus every corpus/C01/*.go.txt (directives `// key:`, `// call:`, `// want:`
 // in comment lines, the rest is the declaration)
 func loadCorpus() []corpusItem {
-	items := []corpusItem{{"corpus:uint64-read-depth3", corpusUint64Depth3, "f(7)", "uint64 107"}}
+	items := []corpusItem{{"corpus:uint64-depth3-read", corpusUint64Depth3, "f(7)", "uint64 107"}}
 	dir := os.Getenv("VERIF_DIR")
 	if dir == "" {
 		dir = "/verif"
@@ -1631,19 +1643,23 @@ func main() {
 
 	// ---- corpus first
 	runCorpus(rep, wd)
+	rep.Extra["corpus_seconds"] = time.Since(tStart).Seconds()
 
 	// ---- enumerate, classify compile errors, write + build + run the oracle in the background
 	g := &Gen{a: a, thorough: a.Thorough(), sets: map[string][]*OpSet{}, setUse: map[string]int{}, pools: map[string][]Val{}}
 	g.enumerate()
+	rep.Extra["enumerate_done_at"] = time.Since(tStart).Seconds()
 	if err := g.typecheck(); err != nil {
 		fmt.Fprintln(os.Stderr, "c01:", err)
 		os.Exit(2)
 	}
+	rep.Extra["typecheck_done_at"] = time.Since(tStart).Seconds()
 	odir := a.Path("oracle")
 	if err := g.writeOracle(odir); err != nil {
 		fmt.Fprintln(os.Stderr, "c01: writing the oracle program:", err)
 		os.Exit(2)
 	}
+	rep.Extra["generate_seconds"] = time.Since(tStart).Seconds()
 	orc := make(chan *oracleResult, 1)
 	go func() { orc <- g.runOracle(odir) }()
 
@@ -1683,6 +1699,7 @@ func main() {
 	rep.Extra["oracle_build_seconds"] = res.buildS
 	rep.Extra["oracle_run_seconds"] = res.runS
 	wd.Beat("compare")
+	tC := time.Now()
 
 	// ---- compare
 	nfail := 0
@@ -1714,7 +1731,9 @@ func main() {
 	var gorder []string
 	coqEligible := func(f *Fn) bool {
 		ok := func(k *Kind) bool { return k == nil || k.Cat == cBool || k.IsInt() || k.Cat == cString }
-		return ok(f.KA) && ok(f.KB)
+		// inputs of a recorded finding class are compared with compiled Go (and reported under the class key) but are
+		// not given to the Coq model: the model describes Go, and would flag them a second time as a mismatch
+		return ok(f.KA) && ok(f.KB) && f.KnownKey == ""
 	}
 	record := func(f *Fn, row int, outcome string) {
 		ax, bx := f.operands(row)
@@ -1779,7 +1798,12 @@ func main() {
 	}
 
 	// ---- Coq cases: an even sample of every (operator, kind, shape) group of the integer / bool / string cases
-	header := "From Coq Require Import List NArith ZArith.\nFrom Verif Require Import Common.GoStr GoLite.Syntax GoLite.Sem C01.Model.\nRequire Gen_binary_ops Gen_binary_shifts Gen_binary_relops Gen_binary_eqlneq Gen_unary_ops Gen_identifier Gen_util.\nImport ListNotations.\nOpen Scope Z_scope.\nDefinition tables := Gen_binary_ops.table ++ Gen_binary_shifts.table ++ Gen_binary_relops.table ++ Gen_binary_eqlneq.table ++ Gen_unary_ops.table ++ Gen_identifier.table ++ Gen_util.table."
+	header := "From Coq Require Import List NArith ZArith.\nFrom Verif Require Import Common.GoStr GoLite.Syntax GoLite.Sem C01.Model.\nAdd LoadPath \".\" as Gen.\nFrom Gen Require Gen_binary_ops Gen_binary_shifts Gen_binary_relops Gen_binary_eqlneq Gen_unary_ops Gen_identifier Gen_util.\nImport ListNotations.\nOpen Scope Z_scope.\nDefinition tables := Gen_binary_ops.table ++ Gen_binary_shifts.table ++ Gen_binary_relops.table ++ Gen_binary_eqlneq.table ++ Gen_unary_ops.table ++ Gen_identifier.table ++ Gen_util.table."
+	if stale, _ := filepath.Glob(a.Path("cases_*.v")); len(stale) > 0 {
+		for _, f := range stale { // shards of an earlier run with more cases
+			os.Remove(f)
+		}
+	}
 	cases := vh.NewCases(a, header, "case", "mismatches tables", 400)
 	quota := 5
 	if a.Thorough() {
@@ -1843,6 +1867,7 @@ func main() {
 		allf.Close()
 	}
 
+	rep.Extra["compare_and_cases_seconds"] = time.Since(tC).Seconds()
 	rep.Extra["coq_cases"] = idx
 	rep.Extra["functions"] = len(g.fns)
 	rep.Extra["functions_compiled_go"] = ncompiled
